@@ -5,7 +5,7 @@ from .. import terms as T
 from ..ctx import make_state, make_rbm, tens, call, single, dimval, state_networks
 from ..ctx import run as paths_of
 from ..interp import RaiseEx, explore
-from ..values import VConst, VNum, VTens, VObj, VList, VTuple, VDict, VUnknown, VFunc, VRange, VIter, Unsupported, num_term, const_of
+from ..values import VConst, VNum, VTens, VObj, VList, VTuple, VDict, VUnknown, VFunc, VRange, VIter, VExt, VClass, VBound, VSlice, Unsupported, num_term, const_of
 from ..model import AnalysisError
 from ..ops_ext import module_params
 
